@@ -331,12 +331,17 @@ def random_job(args):
 def main(chk):
   res = tlc.must_pass(tlc.run('AbortHandshake', 'AbortHandshake_fixed.cfg', workers=8, coverage=True),
                       'AbortHandshake design check')
-  chk.add_tlc('AbortHandshake (repaired protocol, 2 main + 2 teardown phases, 2 aborters; safety + liveness)', res)
+  chk.add_tlc('AbortHandshake (repaired protocol, 1 setup + 1 main + 2 teardown phases, 2 aborters; safety + liveness)', res)
   neg = tlc.run('AbortHandshake', 'AbortHandshake_pinned.cfg', workers=8)
   if 'NoStartAfterAbortReturned' not in neg.invariant_violated:
     raise tlc.TLCError('sensitivity: the pinned protocol should violate NoStartAfterAbortReturned')
   chk.cov['model_sensitivity'] = ('AbortHandshake.tla with ResetInAbort=TRUE (abort() clears _stopping itself) violates '
                                   'NoStartAfterAbortReturned: TLC reproduces the abort window')
+  neg2 = tlc.run('AbortHandshake', 'AbortHandshake_postloop.cfg', workers=8)
+  if 'EnteredMeansTeardown' not in neg2.invariant_violated:
+    raise tlc.TLCError('sensitivity: a second look at the abort flag after the setup sequence should violate EnteredMeansTeardown')
+  chk.cov['model_sensitivity_2'] = ('AbortHandshake.tla with PostLoopAbortCheck=TRUE (abort flag re-read after the setup sequence) '
+                                    'violates EnteredMeansTeardown: an entered group loses its teardown')
   quick = chk.tier == 'quick'
   sys.argv = sys.argv[:1]
   from vf import build, explore  # noqa: F401
